@@ -265,6 +265,11 @@ Grammar(evs, X, a) ==
 \* ======================================================================= C15.json_mirror
 \* J = Seq([el, status, els: Seq([type, el, status, steps: Seq([pos, match, status])])])   ("" = no status / null)
 ScenEls(f) == SelectSeq(f.els, LAMBDA x : x.type = "scenario")
+\* the defect of DESIGN section 8 #12, as narrow as it is: the background element j carries exactly the status of the
+\* scenario element in front of it (only background elements in between) and that scenario element carries none
+OnlyBgBetween(els, i, j) == \A m \in (i + 1)..(j - 1) : els[m].type = "background"
+BgCarries(els, j, X) == \E i \in 1..(j - 1) : /\ els[i].type = "scenario" /\ els[i].status = "" /\ OnlyBgBetween(els, i, j)
+                                              /\ els[j].status # "" /\ els[j].status = StOf(X, els[i].el)
 JShape(J) == [k \in DOMAIN J |-> [feat |-> J[k].el, scens |-> LET q == ScenEls(J[k]) IN [j \in DOMAIN q |-> q[j].el]]]
 JsonMirror(J, X, a) ==
    (IF JShape(J) # a.shown THEN {<<"C15.json_mirror", "features_or_scenarios">>} ELSE {})
@@ -276,11 +281,11 @@ JsonMirror(J, X, a) ==
          IF x.type = "background"
          THEN \* a status on a background element belongs to some other element
               IF x.status = "" THEN {}
-              ELSE {<<Fam("C15.json_mirror", IF i > 1 /\ f.els[i - 1].type = "scenario" /\ f.els[i - 1].status = ""
-                                                  /\ x.status = StOf(X, f.els[i - 1].el) THEN KF_BG ELSE "none"), "status_on_background">>}
+              ELSE {<<Fam("C15.json_mirror", IF BgCarries(f.els, i, X) THEN KF_BG ELSE "none"), "status_on_background">>}
          ELSE (IF x.status = StOf(X, x.el) THEN {}
-               ELSE {<<Fam("C15.json_mirror", IF x.status = "" /\ i < Len(f.els) /\ f.els[i + 1].type = "background"
-                                                   /\ f.els[i + 1].status = StOf(X, x.el) THEN KF_BG ELSE "none"), "scenario_status">>})
+               ELSE {<<Fam("C15.json_mirror", IF x.status = "" /\ \E j \in (i + 1)..Len(f.els) : f.els[j].type = "background" /\ BgCarries(f.els, j, X)
+                                                                                                       /\ OnlyBgBetween(f.els, i, j)
+                                              THEN KF_BG ELSE "none"), "scenario_status">>})
               \cup (IF [p \in DOMAIN x.steps |-> x.steps[p].pos] = Ids(NOf(X, x.el)) THEN {} ELSE {<<"C15.json_mirror", "steps">>})
               \cup (IF \A p \in DOMAIN x.steps :
                           LET sp == x.steps[p] IN
